@@ -26,6 +26,7 @@ Reset ==
   /\ Is("Reset")
   /\ scen' = Trace[l].sc
   /\ logState' = "Default" /\ hasRes' = FALSE /\ hasCS' = FALSE /\ unres' = [r \in Rid |-> NoRec]
+  /\ wiped' = FALSE /\ rcpc' = "idle"
   /\ closedDb' = FALSE /\ bmark' = FALSE /\ nursery' = FALSE /\ resolvedDb' = FALSE
   /\ finalOut' = [h \in HTLCs |-> "none"] /\ preimg' = FALSE
   /\ late' = FALSE /\ vlate' = FALSE /\ published' = FALSE /\ sweepReq' = FALSE
@@ -69,6 +70,9 @@ TNext ==
   \/ IsW("MarkClosed") /\ \E src \in Srcs : MMarkClosed(src)
   \/ IsW("MarkBroadcast") /\ \E src \in Srcs : MMarkB(src)
   \/ IsW("MarkResolved") /\ \E src \in Srcs : MNotify(src)
+  \/ IsW("Wipe") /\ RCWipe
+  \* the live node stopped answering (judged by the orchestrator: C13:no-progress)
+  \/ Is("Stall") /\ UNCHANGED vars
   \/ IsW("InsertUnresolved") /\ \E src \in Srcs : MInsUnres(src)
   \/ IsW("FinalHtlc") /\ Trace[l].h = "id" /\ \E src \in Srcs : MFinal(src)
   \/ IsW("FinalHtlc") /\ Trace[l].h = "i" /\ RFinal("i")
@@ -87,7 +91,7 @@ ModelUn == {[k |-> unres[r].kind, s |-> unres[r].stage, r |-> B(unres[r].resolve
               r \in {x \in Rid : unres[x] # NoRec}}
 \* the durable arbitrator log read back from the database after the line
 ConformLog == Live => /\ Last.st = logState
-                      /\ Last.rs = B(hasRes) /\ Last.cs = B(hasCS)
+                      /\ Last.rs = B(hasRes) /\ Last.cs = B(hasCS) /\ Last.wp = B(wiped)
                       /\ UnSet(Last.un) = ModelUn
 \* the durable facts outside the log
 ConformExt == Live => /\ Last.cl = B(closedDb) /\ Last.bm = B(bmark)
